@@ -348,4 +348,5 @@ class GcModel:
         P["metrics::Metrics::new"] = metrics_new
         P["<metrics::Metrics as core::clone::Clone>::clone"] = metrics_new
         P["metrics::Metrics::total_gc_count"] = total_gc_count
+        P["metrics::Metrics::arena_id"] = total_gc_count  # logging only (tracing feature)
         return P
